@@ -81,11 +81,11 @@ class Ctx:
             self.vh = out
         return out
 
-    def run_vh(self, args, timeout=3600, binary=None, env=None, check=True):
+    def run_vh(self, args, timeout=3600, binary=None, env=None, check=True, input_text=None):
         e = goenv()
         if env:
             e.update(env)
-        p = subprocess.run([binary or self.vh] + args, capture_output=True, text=True, timeout=timeout, env=e)
+        p = subprocess.run([binary or self.vh] + args, capture_output=True, text=True, timeout=timeout, env=e, input=input_text)
         if check and p.returncode != 0:
             raise InfraError("vh %s failed (exit %d):\n%s" % (" ".join(args[:3]), p.returncode, (p.stdout + p.stderr)[-4000:]))
         return p
@@ -235,6 +235,7 @@ class Ctx:
         results = self.tlc_parallel(jobs, timeout=timeout)
         classes = {}
         mism = []
+        missing = {}
         consumed = 0
         for r in results:
             with open(r["out"], errors="replace") as f:
@@ -242,11 +243,15 @@ class Ctx:
                     if line.startswith('<<"CLASS"'):
                         m = re.match(r'<<"CLASS", (.+), "(\w+)">>$', line.strip())
                         classes[json.loads(m[1])] = m[2]
+                    elif line.startswith('<<"MISSING"'):
+                        m = re.match(r'<<"MISSING", (.+?), (\d+), "(.*)">>$', line.strip())
+                        missing[(m[1], int(m[2]) - 1)] = json.loads(unescape_tla_string(m[3]))
                     elif line.startswith('<<"MISMATCH"'):
                         m = re.match(r'<<"MISMATCH", (.+?), (\d+), "(\w+)", "(.*)">>$', line.strip())
                         exp = unescape_tla_string(m[4])
                         mism.append(dict(id=json.loads(m[1]), variant=int(m[2]) - 1, kind=m[3],
-                                         expected=None if exp == "null" else json.loads(exp)))
+                                         expected=None if exp == "null" else json.loads(exp),
+                                         missing=missing.get((m[1], int(m[2]) - 1), [])))
                     elif line.startswith('<<"CONSUMED"'):
                         consumed += int(re.match(r'<<"CONSUMED", (\d+)>>', line)[1])
         if consumed != n:
@@ -269,7 +274,11 @@ class Ctx:
         self.violations.append(dict(summary=summary, replay=path))
 
     def known_finding(self, text):
-        if text not in self.known:
+        """One KNOWN-FINDING line per finding id (the first word); further hits are counted."""
+        fid = text.split(" ", 1)[0]
+        self.known_counts = getattr(self, "known_counts", {})
+        self.known_counts[fid] = self.known_counts.get(fid, 0) + 1
+        if not any(k.split(" ", 1)[0] == fid for k in self.known):
             self.known.append(text)
 
     def add_sample(self, s, cap=6):
